@@ -135,7 +135,7 @@ func init() {
 		"runtime.Stack":            func(fr *frame, a []value) value { return 0 },
 		"runtime/debug.Stack":      func(fr *frame, a []value) value { return []value(nil) },
 		"runtime.GC":               nop,
-		"runtime.Gosched":          func(fr *frame, a []value) value { fr.i.yield("gosched"); return nil },
+		"runtime.Gosched":          func(fr *frame, a []value) value { fr.i.giveUp(); return nil },
 		"runtime.KeepAlive":        nop,
 		"runtime.SetFinalizer":     nop,
 		"runtime.NumGoroutine":     func(fr *frame, a []value) value { return 1 },
@@ -434,7 +434,7 @@ func atomicSwap(fr *frame, a []value) value {
 func atomicCAS(fr *frame, a []value) value {
 	fr.i.yield("atomic.CAS")
 	c := atomicCell(a[0].(*value))
-	if fr.i.boolOf(fr.i.binop(token.EQL, nil, *c, a[1]), "atomic.CAS") {
+	if fr.i.boolOf(fr.i.binop(token.EQL, types.Typ[types.Int64], *c, a[1]), "atomic.CAS") {
 		*c = a[2]
 		return true
 	}
@@ -470,7 +470,7 @@ func atomicAddPtr(fr *frame, a []value) value {
 func atomicCASPtr(fr *frame, a []value) value {
 	fr.i.yield("atomic.CAS")
 	p := a[0].(*value)
-	if fr.i.boolOf(fr.i.binop(token.EQL, nil, *p, a[1]), "atomic.CAS") {
+	if fr.i.boolOf(fr.i.binop(token.EQL, types.Typ[types.Int64], *p, a[1]), "atomic.CAS") {
 		*p = a[2]
 		return true
 	}
